@@ -779,18 +779,68 @@ func ReturnValues(f *ssa.Function, i int) []ssa.Value {
 	return out
 }
 
-// SpillSources: if v is a load of a local Alloc, the values stored into it; else v itself.
+// SpillSources: if v is a load of a local Alloc, the values stored into it (resolved through further cell
+// loads: a value moved from one cell read to a store and read again is followed); else v itself.
 func SpillSources(v ssa.Value) []ssa.Value {
+	var out []ssa.Value
+	seen := map[ssa.Value]bool{}
+	var rec func(x ssa.Value, d int)
+	rec = func(x ssa.Value, d int) {
+		if seen[x] {
+			return
+		}
+		seen[x] = true
+		srcs := spillSources1(x)
+		if d > 6 || len(srcs) == 1 && srcs[0] == x {
+			out = append(out, x)
+			return
+		}
+		for _, s := range srcs {
+			rec(s, d+1)
+		}
+	}
+	rec(v, 0)
+	return out
+}
+
+func spillSources1(v ssa.Value) []ssa.Value {
 	if u, ok := v.(*ssa.UnOp); ok && u.Op == token.MUL {
 		if a, ok := u.X.(*ssa.Alloc); ok {
-			// the closest store in the same block before the load wins
-			blk := u.Block()
-			for i := Index(u) - 1; i >= 0; i-- {
-				if st, ok := blk.Instrs[i].(*ssa.Store); ok && st.Addr == ssa.Value(a) {
-					return []ssa.Value{st.Val}
+			// reaching definitions of the cell at the load: the closest store before it in its block, else the
+			// stores reaching the end of each predecessor (a call that may write the cell through a captured
+			// reference is not modelled: such cells are not queried here)
+			var out []ssa.Value
+			seenVal := map[ssa.Value]bool{}
+			visited := map[*ssa.BasicBlock]bool{}
+			complete := true
+			var back func(blk *ssa.BasicBlock, from int)
+			back = func(blk *ssa.BasicBlock, from int) {
+				for i := from; i >= 0; i-- {
+					if st, ok := blk.Instrs[i].(*ssa.Store); ok && st.Addr == ssa.Value(a) {
+						if !seenVal[st.Val] {
+							seenVal[st.Val] = true
+							out = append(out, st.Val)
+						}
+						return
+					}
+				}
+				if len(blk.Preds) == 0 {
+					complete = false // reaches the entry without a store: the zero value
+					return
+				}
+				for _, p := range blk.Preds {
+					if visited[p] {
+						continue
+					}
+					visited[p] = true
+					back(p, len(p.Instrs)-1)
 				}
 			}
-			var out []ssa.Value
+			back(u.Block(), Index(u)-1)
+			_ = complete
+			if len(out) > 0 {
+				return out
+			}
 			for _, ref := range Referrers(a) {
 				if st, ok := ref.(*ssa.Store); ok && st.Addr == ssa.Value(a) {
 					out = append(out, st.Val)
